@@ -1,6 +1,7 @@
 import BU.Driver.Core
 import BU.Gen.Codec
 import BU.Gen.Tables
+import BU.Crypto.Sha256
 /-! Interpreted driver for the *generated* definitions (`lake env lean --run GenMain.lean`): validates
 the translator by running what it emitted against the implementation it was emitted from. -/
 open Driver
@@ -48,6 +49,8 @@ def ptS : Option (Int × Int) → String | none => "0" | some (x, y) => s!"1 {x}
 
 def genOps3 : List (String × R String) := [
   ("g:rmd", do let b ← bytes; pure (ans hex (Gen.rmd_ripemd160 b))),
+  ("g:schnorr_sign", do let m ← bytes; let k ← bytes; let a ← bytes; pure (ans hex (Gen.schnorr_sign Crypto.sha256 m k a))),
+  ("g:schnorr_verify", do let m ← bytes; let k ← bytes; let s ← bytes; pure (ans (fun (b : Bool) => if b then "1" else "0") (Gen.schnorr_verify Crypto.sha256 m k s))),
   ("g:pt_add", do let a ← pt; let b ← pt; pure (ans ptS (Gen.schnorr_point_add a b))),
   ("g:pt_mul", do let a ← pt; let k ← int; pure (ans ptS (Gen.schnorr_point_mul a k))),
   ("g:lift_x", do let x ← int; pure (ans ptS (Gen.schnorr_lift_x x))),
